@@ -8,6 +8,54 @@ use std::ops::Bound;
 use std::panic::{catch_unwind, AssertUnwindSafe};
 
 static mut SNAP_BASE: u64 = 0;
+static mut COMMIT_SEQ: u64 = 0;
+
+/// entry points of the LD_PRELOAD shim, when it is loaded
+pub struct Shim {
+    mark: Option<unsafe extern "C" fn(*const libc::c_char)>,
+    arm: Option<unsafe extern "C" fn(libc::c_int, libc::c_int, libc::c_int, libc::c_long)>,
+    disarm: Option<unsafe extern "C" fn()>,
+}
+
+impl Shim {
+    pub fn load() -> Shim {
+        unsafe {
+            let f = |name: &str| {
+                let c = std::ffi::CString::new(name).unwrap();
+                let p = libc::dlsym(libc::RTLD_DEFAULT, c.as_ptr());
+                if p.is_null() {
+                    None
+                } else {
+                    Some(p)
+                }
+            };
+            Shim {
+                mark: f("jshim_mark").map(|p| std::mem::transmute(p)),
+                arm: f("jshim_arm").map(|p| std::mem::transmute(p)),
+                disarm: f("jshim_disarm").map(|p| std::mem::transmute(p)),
+            }
+        }
+    }
+    pub fn mark(&self, text: &str) {
+        if let Some(f) = self.mark {
+            let c = std::ffi::CString::new(text).unwrap();
+            unsafe { f(c.as_ptr()) }
+        }
+    }
+    pub fn arm(&self, kind: i32, nth: i32, err: i32, short: i64) -> bool {
+        if let Some(f) = self.arm {
+            unsafe { f(kind, nth, err, short as libc::c_long) };
+            true
+        } else {
+            false
+        }
+    }
+    pub fn disarm(&self) {
+        if let Some(f) = self.disarm {
+            unsafe { f() }
+        }
+    }
+}
 
 pub struct Cfg {
     pub path: String,
@@ -24,6 +72,7 @@ pub struct Env {
     pub buckets: HashMap<u64, (u64, Bucket<'static, 'static>)>,
     pub snap: u64,
     pub wtx: Option<u64>,
+    pub shim: Shim,
 }
 
 fn fmt_data(d: &Data) -> String {
@@ -58,6 +107,7 @@ impl Env {
             buckets: HashMap::new(),
             snap: unsafe { SNAP_BASE },
             wtx: None,
+            shim: Shim::load(),
         }
     }
 
@@ -92,6 +142,26 @@ impl Env {
             Ok(Err(e)) => err_class(&e),
             Err(p) => panic_class(&*p),
         }
+    }
+
+    /// copies the used part of the database file (the larger page count named by the two header
+    /// pages; the whole file if that makes no sense) to `dst`
+    pub fn snapshot_used(&self, dst: &str) {
+        use std::io::Read;
+        let mut f = std::fs::File::open(&self.cfg.path).expect("open db file");
+        let len = f.metadata().unwrap().len();
+        let ps = self.cfg.pagesize as usize;
+        let mut hdr = vec![0u8; 2 * ps];
+        f.read_exact(&mut hdr).expect("read headers");
+        let np = |o: usize| u64::from_le_bytes(hdr[o + 72..o + 80].try_into().unwrap());
+        let mut want = std::cmp::max(np(0), np(ps)).saturating_mul(ps as u64);
+        if want < 4 * ps as u64 || want > len {
+            want = std::cmp::min(len, 64 << 20);
+        }
+        let mut buf = vec![0u8; want as usize];
+        buf[..2 * ps].copy_from_slice(&hdr);
+        f.read_exact(&mut buf[2 * ps..]).expect("read body");
+        std::fs::write(dst, &buf).expect("write snapshot");
     }
 
     fn drop_tx_buckets(&mut self, t: u64) {
@@ -194,10 +264,24 @@ impl Env {
                     self.wtx = None;
                 }
                 let tx = self.txs.remove(&t).expect("unknown tx");
-                match (*tx).commit() {
-                    Ok(()) => "ok".into(),
-                    Err(e) => err_class(&e),
+                let seq = unsafe {
+                    COMMIT_SEQ += 1;
+                    COMMIT_SEQ
+                };
+                if let Ok(dir) = std::env::var("JH_CRASH_DIR") {
+                    // the used part of the file as it is before this commit
+                    self.snapshot_used(&format!("{}/pre-{}.img", dir, seq));
                 }
+                self.shim.mark(&format!("commit-begin {} {}", seq, t));
+                let r = catch_unwind(AssertUnwindSafe(|| (*tx).commit()));
+                self.shim.disarm();
+                let out = match r {
+                    Ok(Ok(())) => "ok".to_string(),
+                    Ok(Err(e)) => err_class(&e),
+                    Err(p) => panic_class(&*p),
+                };
+                self.shim.mark(&format!("commit-end {} {} {}", seq, t, out));
+                out
             }
             "drop" => {
                 let t = num(1);
@@ -359,23 +443,9 @@ impl Env {
                 // snapshot the used part of the file for the model driver (which checks it after
                 // this process has finished).  Only the length is chosen here: the larger page
                 // count named by the two header pages; the Lean checker rejects a short snapshot.
-                use std::io::Read;
                 self.snap += 1;
                 let snap = format!("{}.snap{}", self.cfg.path, self.snap);
-                let mut f = std::fs::File::open(&self.cfg.path).expect("open db file");
-                let len = f.metadata().unwrap().len();
-                let ps = self.cfg.pagesize as usize;
-                let mut hdr = vec![0u8; 2 * ps];
-                f.read_exact(&mut hdr).expect("read headers");
-                let np = |o: usize| u64::from_le_bytes(hdr[o + 72..o + 80].try_into().unwrap());
-                let mut want = std::cmp::max(np(0), np(ps)).saturating_mul(ps as u64);
-                if want < 4 * ps as u64 || want > len {
-                    want = std::cmp::min(len, 64 << 20);
-                }
-                let mut buf = vec![0u8; want as usize];
-                buf[..2 * ps].copy_from_slice(&hdr);
-                f.read_exact(&mut buf[2 * ps..]).expect("read body");
-                std::fs::write(&snap, &buf).expect("write snapshot");
+                self.snapshot_used(&snap);
                 snap
             }
             "flstate" => {
@@ -405,6 +475,31 @@ impl Env {
                 // start from a copy of an existing database file instead of a fresh one
                 self.close_all();
                 std::fs::copy(f[1], &self.cfg.path).expect("copy golden file");
+                "ok".into()
+            }
+            "fault" => {
+                // fault <write|fsync> <nth> <errno> [short_len]: the nth such call on the database
+                // file from now on fails (writes: optionally after a short write)
+                let kind = if f[1] == "write" { 1 } else { 2 };
+                let short: i64 = f.get(4).map(|x| x.parse().unwrap()).unwrap_or(-1);
+                if self.shim.arm(kind, f[2].parse().unwrap(), f[3].parse().unwrap(), short) {
+                    "ok".into()
+                } else {
+                    "noshim".into()
+                }
+            }
+            "limit" => {
+                // limit <bytes|inf>: RLIMIT_FSIZE, with SIGXFSZ ignored so that extension fails with EFBIG
+                unsafe {
+                    libc::signal(libc::SIGXFSZ, libc::SIG_IGN);
+                    let v = if f[1] == "inf" { libc::RLIM_INFINITY } else { f[1].parse::<u64>().unwrap() as libc::rlim_t };
+                    let rl = libc::rlimit { rlim_cur: v, rlim_max: libc::RLIM_INFINITY };
+                    libc::setrlimit(libc::RLIMIT_FSIZE, &rl);
+                }
+                "ok".into()
+            }
+            "mark" => {
+                self.shim.mark(&f[1..].join(" "));
                 "ok".into()
             }
             "fhash" => {
